@@ -57,7 +57,7 @@ def setup_block(mk, inst, stage, flags=('done',), stub_comm=True, M=1):
             ctrl.stub_sweeper(L, p, l, trace, fresh)
             Ml = L.sweep.coll.num_nodes
             L.status.time = mk.real(f't{p}')
-            L.status.sweep = 1
+            L.status.sweep = mk.int(f'sweep[{p},{l}]')  # whatever the last stage left behind
             L.tag = None
             has_nodes = not (stage == 'SPREAD' and p >= d) and (l == 0 or stage not in ('SPREAD', 'PREDICT', 'IT_CHECK') or p < d)
             if l == 0 or has_nodes:
@@ -646,13 +646,19 @@ class RecvFull(StageContract):
     expected_exceptions = (CommunicationError,)
 
     def instances(self, tier):
-        return [dict(n=2, d=0, nlevels=2, who=w, level=l, tagslot=ts, taglevel=tl) for w in (0, 1) for l in (0, 1)
-                for ts in (0, 1) for tl in (0, 1)]
+        out = [dict(n=2, d=0, nlevels=2, who=w, level=l, tagslot=ts, taglevel=tl) for w in (0, 1) for l in (0, 1)
+               for ts in (0, 1) for tl in (0, 1)]
+        # single level, both coupling modes; the receive never depends on the sweep counter (it is also what it_check uses after the last of several sweeps)
+        out += [dict(n=2, d=0, nlevels=1, who=w, level=0, tagslot=ts, taglevel=0, mssdc_jac=jac) for w in (0, 1) for ts in (0, 1) for jac in (True, False)]
+        return out
 
     def build(self, inst, mk):
         st = setup_block(mk, inst, 'IT_FINE', stub_comm=False)
         S = st.MS[inst['who']]
         l = inst['level']
+        for T in st.MS:
+            for Lv in T.levels:
+                Lv.status.sweep = mk.int(f'sweep[{T.status.slot},{Lv.level_index}]')
         S.status.prev_done = mk.bool('prev_done')
         st.tag_iter = mk.int('tag_iter')
         S.prev.levels[l].tag = (inst['taglevel'], st.tag_iter, inst['tagslot'])
